@@ -383,6 +383,26 @@ impl Deserialize for TimeTriggerDeserializer {
         config: TimeTriggerConfig,
         _: &Deserializers,
     ) -> anyhow::Result<Box<dyn Trigger>> {
+        // An interval of zero (or a negative one) has no next boundary and an
+        // astronomically large one overflows the date arithmetic; both used to
+        // panic while the configuration was being loaded.
+        let (n, max) = match config.interval {
+            TimeTriggerInterval::Second(n) => (n, 31_557_600_000),
+            TimeTriggerInterval::Minute(n) => (n, 525_960_000),
+            TimeTriggerInterval::Hour(n) => (n, 8_766_000),
+            TimeTriggerInterval::Day(n) => (n, 365_250),
+            TimeTriggerInterval::Week(n) => (n, 52_178),
+            TimeTriggerInterval::Month(n) => (n, 12_000),
+            TimeTriggerInterval::Year(n) => (n, 1_000),
+        };
+        if n < 1 || n > max {
+            anyhow::bail!(
+                "the interval of a time trigger must be between 1 and {} (1000 years), got {}",
+                max,
+                n
+            );
+        }
+
         Ok(Box::new(TimeTrigger::new(config)))
     }
 }
